@@ -5,6 +5,8 @@ package main
 import (
 	"fmt"
 	"go/types"
+	"sort"
+	"strings"
 
 	"golang.org/x/tools/go/ssa"
 )
@@ -60,6 +62,7 @@ type a3Result struct {
 	Why     string
 	Tested  bool
 	Returns []*ssa.Return // offending success returns
+	Escapes []string      // where control gets without any test of the verdict
 }
 
 // rejectOnFailure (A3): the verdict v is tested and no success return is reachable from the
@@ -109,10 +112,105 @@ func rejectOnFailure(fn *ssa.Function, v ssa.Value) a3Result {
 	}
 	if !res.OK {
 		res.Why = "a success return is reachable after the check failed"
+	} else if esc := untestedEscapes(fn, v, ve); len(esc) > 0 {
+		res.OK = false
+		res.Escapes = esc
+		res.Why = "the verdict is tested on some paths only: control gets from the call to " + strings.Join(esc, " and to ") + " without passing any test of it"
 	} else {
 		res.Why = "failing side reaches only error returns"
 	}
 	return res
+}
+
+// untestedEscapes: where control can get from the instruction that produces verdict v without
+// passing a block that branches on v (or on an alias of it): back to the producing block (the
+// next iteration overwrites the verdict) or to a success return. Returning v itself (also
+// through phis) hands the verdict on and is not an escape.
+func untestedEscapes(fn *ssa.Function, v ssa.Value, ve verdictEdges) []string {
+	var def ssa.Instruction
+	switch x := v.(type) {
+	case *ssa.Extract:
+		def, _ = x.Tuple.(ssa.Instruction)
+	case ssa.Instruction:
+		def = x
+	}
+	if def == nil || def.Block() == nil || def.Parent() != fn {
+		return nil
+	}
+	if _, isPhi := def.(*ssa.Phi); isPhi {
+		return nil
+	}
+	tested := map[*ssa.BasicBlock]bool{}
+	for _, ifi := range ve.Ifs {
+		tested[ifi.Block()] = true
+	}
+	start := def.Block()
+	if tested[start] {
+		return nil
+	}
+	var flows func(x ssa.Value, d int) bool
+	flows = func(x ssa.Value, d int) bool {
+		if x == v {
+			return true
+		}
+		if ph, ok := x.(*ssa.Phi); ok && d < 4 {
+			for _, e := range ph.Edges {
+				if flows(e, d+1) {
+					return true
+				}
+			}
+		}
+		return false
+	}
+	out := map[string]bool{}
+	seen := map[*ssa.BasicBlock]bool{}
+	var stack []*ssa.BasicBlock
+	push := func(to *ssa.BasicBlock) {
+		if to == start {
+			out["the next execution of the call"] = true
+			return
+		}
+		if !seen[to] {
+			seen[to] = true
+			stack = append(stack, to)
+		}
+	}
+	for _, s := range start.Succs {
+		push(s)
+	}
+	for len(stack) > 0 {
+		b := stack[len(stack)-1]
+		stack = stack[:len(stack)-1]
+		if tested[b] {
+			continue
+		}
+		if len(b.Instrs) > 0 {
+			if ret, ok := b.Instrs[len(b.Instrs)-1].(*ssa.Return); ok {
+				if b == fn.Recover {
+					continue
+				}
+				handed := false
+				for _, r := range retResults(ret) {
+					if flows(r, 0) {
+						handed = true
+					}
+				}
+				if !handed && isSuccessReturnOnReject(ret, v) {
+					out["a success return"] = true
+				}
+				continue
+			}
+		}
+		for _, s := range b.Succs {
+			push(s)
+		}
+	}
+	var names []string
+	for k := range out {
+		names = append(names, k)
+	}
+	sort.Strings(names)
+	return names
 }
 
 // isSuccessReturnOnReject: like isSuccessReturn, but a return of the rejected error verdict
